@@ -14,7 +14,7 @@ import (
 func init() {
 	register("C11", &ruleSet{
 		run:    runC11,
-		floors: map[string]int{"O1": 1, "O2": 3, "O3": 9, "O4": 1, "O5": 3, "O6": 5},
+		floors: map[string]int{"O1": 1, "O2": 3, "O3": 8, "O4": 1, "O5": 3, "O6": 5},
 		explain: "Decides structurally that the configured order reaches the queue and that the queue's two ends are used consistently: (O1) in the queue-limiter " +
 			"constructor the backlog's ordering field is stored from the config's ordering field read after defaulting (a constant is a violation); (O2) if push " +
 			"inserts at end P of the list, the FIFO case of the selection reads the opposite end and the LIFO case the same end, the selection is exhaustive over " +
